@@ -13,7 +13,7 @@ from mc.core.explore import Shard, violation
 PROPERTY = "C04"
 RULE = (
     "exhaustive enumeration of `$`.T^<=k over a 33-token alphabet (k=4 quick, 5 thorough), "
-    "T^<=2 without `$`, and all single-edit neighbours of a 190-query valid corpus; "
+    "T^<=2 without `$`, all single-edit neighbours of a 190-query valid corpus and every corpus query with one token (every ordered token pair in thorough) inserted at every position; "
     "each string is classified by the reference recogniser and given to compile(); "
     "non-trivial = the string is outside the grammar (the property's domain); distinct by "
     "construction within a space"
